@@ -31,11 +31,16 @@ CACHE_TARGET = os.path.join(VERIF_ROOT, 'cache', 'kani-target')
 
 STUB_MACROS = {
     'command/src/logging/logs.rs': {
-        '_log': 'macro_rules! _log {\n    ($lvl:expr, $format:expr $(, $args:expr)*) => {{ $( let _ = &$args; )* }};\n}',
+        # arguments are NOT evaluated: they are format! / log-context strings whose construction dominates CBMC cost
+        '_log': 'macro_rules! _log {\n    ($lvl:expr, $format:expr $(, $args:expr)*) => {{}};\n}',
     },
     'lib/src/metrics/mod.rs': {
-        n: f'macro_rules! {n} (\n  ($($arg:expr),* $(,)?) => ({{ $( let _ = &$arg; )* }});\n);'
-        for n in ('count', 'incr', 'gauge', 'gauge_add', 'time')
+        # same arms as the originals; only the value argument is evaluated, the thread-local METRICS access is gone
+        'count': 'macro_rules! count (\n  ($key:expr, $value: expr) => ({ let _v = $value; });\n);',
+        'incr': 'macro_rules! incr (\n  ($key:expr) => ({});\n  ($key:expr, $cluster_id:expr, $backend_id:expr) => ({});\n);',
+        'gauge': 'macro_rules! gauge (\n  ($key:expr, $value: expr) => ({ let _v = $value; });\n  ($key:expr, $value:expr, $cluster_id:expr, $backend_id:expr) => ({ let _v = $value; });\n);',
+        'gauge_add': 'macro_rules! gauge_add (\n  ($key:expr, $value: expr) => ({ let _v = $value; });\n  ($key:expr, $value:expr, $cluster_id:expr, $backend_id:expr) => ({ let _v = $value; });\n);',
+        'time': 'macro_rules! time (\n  ($key:expr, $value: expr) => ({ let _v = $value; });\n  ($key:expr, $cluster_id:expr, $value: expr) => ({ let _v = $value; });\n);',
     },
 }
 
